@@ -69,6 +69,23 @@ func (p *tcpProxy) pipeHeld(dst, src net.Conn) {
 	var in []byte
 	var total int64
 	broken := false
+	var next time.Time // pacing of a throttled link: the time the link is free again
+	pace := func(n int) {
+		p.mu.Lock()
+		rate := p.rate
+		p.mu.Unlock()
+		if rate <= 0 {
+			return
+		}
+		now := time.Now()
+		if next.Before(now) {
+			next = now
+		}
+		next = next.Add(time.Duration(n) * time.Second / time.Duration(rate))
+		if d := next.Sub(now); d > 2*time.Millisecond {
+			time.Sleep(d)
+		}
+	}
 	for !broken {
 		n, err := src.Read(buf)
 		if n > 0 {
@@ -97,6 +114,7 @@ func (p *tcpProxy) pipeHeld(dst, src net.Conn) {
 					if _, werr := dst.Write(msg); werr != nil {
 						broken = true
 					}
+					pace(len(msg))
 				}
 				in = in[l+2:]
 			}
